@@ -1,5 +1,18 @@
 """Which contract families decide which property, and at what claimed level."""
 PROPS = {
+    'C03': {
+        'families': ['contracts.optimizer', 'contracts.native'],
+        'level': 'other',
+        'technique': 'frame obligation by a conservative def-use scan of the real AST + contract on the fallback path; bounded native stand-in for result equivalence',
+        'text': 'Frame obligation "processing does not alter the evolution definitions" decided by a conservative scan of every store '
+                'in the optimiser; contract on _preprocess_mutations (an unsimulatable sequence is handed on unchanged). The result-'
+                'equivalence clause (optimised run == one-at-a-time run) is a bounded native run over enumerated sequences, labelled bounded.',
+        'level_note': 'The 500-line _process_mutation_batch mutates shared objects through aliases and is outside the symbolic engine; '
+                      'only refutations of the equivalence clause that replay on the real code are trusted.',
+        'explanation': 'frame scan (sound for absence of writes) + bounded native equivalence runs; the equivalence clause is not proved',
+        'not_decided': ['schema/row equality of two executions beyond the enumerated sequences'],
+        'design_ref': 'DESIGN.md section 7.6',
+    },
     'C01': {
         'families': ['contracts.rebuild', 'contracts.native'],
         'level': 'proof',
@@ -188,6 +201,7 @@ PROPS = {
 }
 
 NOT_APPLICABLE = {
+    'C03x': '',
     'C04': 'whole-history convergence over Evolver + management commands + a real database; conclusion is equality of two '
            'database states, which no contract on /repo functions expresses (DESIGN.md section 8). Contract-shaped pieces '
            'are discharged under C05 (diff(self)=empty), C06 (store/reload), C08 (record once).',
